@@ -89,3 +89,24 @@ Theorem C06_gather_unsorted_refuted : exists ops d,
   match gather ops with (sg, ab, bb) => string_fn (ab ++ bb) d <> sflip sg (string_fn ops d) end.
 Proof. exact gather_unsorted_refuted. Qed.
 Print Assumptions C06_gather_unsorted_refuted.
+
+(* normal ordering (what `normal_ordered` / the compiler's rewriting does before sorting): replacing
+   ... a_p a†_q ... by  - ... a†_q a_p ...  +  delta_pq ... ...  until no annihilator stands left of a creator
+   changes the representation only: the produced polynomial acts exactly like the source string (every string,
+   coefficient, fuel, determinant length, ring), and with enough fuel every produced string is normal ordered *)
+From FQE Require Import Wick.
+Theorem C06_normal_ordering_sound :
+  forall (R : Type) (rO rI : R) (radd rmul rsub : R -> R -> R) (ropp : R -> R),
+  ring_theory rO rI radd rmul rsub ropp eq ->
+  forall (fuel : nat) (c : R) (s : list lop) (n : nat) (v : vec R) (d : det),
+  below n s -> wide R n v ->
+  coeff R rO radd (act_poly R rmul ropp (expand R ropp fuel c s) v) d = rmul c (coeff R rO radd (act_string R ropp s v) d).
+Proof. exact expand_sound. Qed.
+Print Assumptions C06_normal_ordering_sound.
+
+Theorem C06_normal_ordering_terminates_normal :
+  forall (R : Type) (ropp : R -> R) (c : R) (s : list lop),
+  Forall (fun t => normal (snd t)) (expand R ropp (S (inversions s)) c s)
+  /\ length (expand R ropp (S (inversions s)) c s) <= 2 ^ inversions s.
+Proof. intros. split; [apply expand_normal|apply expand_terms_le]; lia. Qed.
+Print Assumptions C06_normal_ordering_terminates_normal.
